@@ -31,9 +31,13 @@ CHECKS = {
              "respref classifies the input valid, malformed or truncated (the oracle demands a value or an error; "
              "'unspecified' inputs only get the byte-accounting check); (b) value trees depth<=2 width<=2, Encode->Decode, "
              "2/3-value streams with keep-alive newlines through five bufferings, every single-byte substitution and "
-             "truncation of each encoding; (c) command helpers; (d) itos over the whole pre-rendered table",
+             "truncation of each encoding; (c) command helpers; (d) itos over the whole pre-rendered table. "
+             "Second part (TestVerif_C10X): the one consumer that decodes a file's command section (restore with extra=true) gets every prefix of a small section, cut at every byte of its last command (RESP array, array with an empty bulk, inline form): "
+             "the complete commands before the cut are forwarded in order and a section that ends inside a command is never taken for a normal end of input.",
         parts=[dict(pkg="./pkg/redis", harness=["redis"], test="^TestVerif_C10$", shards=16,
-                    budget=dict(quick=60, thorough=900), race=True, race_test="^TestVerif_C10Race$", race_shards=1)],
+                    budget=dict(quick=60, thorough=900), race=True, race_test="^TestVerif_C10Race$", race_shards=1),
+               # the consumer of a file's command section (restore with extra=true): every prefix of a small section, cut at every byte of its last command
+               dict(pkg="./redis-shake", harness=["run"], test="^TestVerif_C10X$", shards=16, gomaxprocs=2, budget=dict(quick=60, thorough=120))],
     ),
     "C15": dict(
         level="exploration",
